@@ -165,7 +165,7 @@ def c15(ctx, res):
     t = "quick" if ctx.quick else "thorough"
     ctx.gen_replay(res, "args", "MC_C15a.tla", "MC_C15a_path_%s.cfg" % t, procs=8)
     ctx.gen_replay(res, "args", "MC_C15a.tla", "MC_C15a_sub_%s.cfg" % t, procs=8)
-    ctx.gen_replay(res, "tok", "MC_C15b.tla", "MC_C15b_%s.cfg" % t)
+    ctx.gen_replay(res, "tok", "MC_C15b.tla", "MC_C15b_%s.cfg" % t, procs=16)
     res.assumptions += ["byte-level corruptions are classified by an independent encoding/xml Token() loop (JSON: encoding/json); a disagreement between that oracle and the specification's class of a token-level corruption is a machinery error (exit 2), not an alarm",
                         "the sequence decoder's io.EOF on a document cut inside an element counts as failure",
                         "indexed wildcard steps (*[i]) are order dependent: only checked for no panic and error class"]
